@@ -401,6 +401,7 @@ def build(
     learn_descan=True,
     learn_scan_positions=True,
     check=True,
+    preprocess_batch_size=None,
 ):
     """Build a preprocessed ``Ptychography`` instance for the simulated data.
 
@@ -487,6 +488,7 @@ def build(
         plot_rotation=False,
         plot_com=False,
         plot_probe_overlap=False,
+        **({"batch_size": int(preprocess_batch_size)} if preprocess_batch_size else {}),
     )
 
     if check:
